@@ -36,7 +36,7 @@ MANIFEST = dict(
          "oracles; IEEE rounding excluded.",
     technique="Coq proof (induction + real analysis over generated formulas); model execution inside Coq and interval goals vs implementation")
 
-HEADER = c14.HEADER.replace('Charact.QExec.', 'Charact.Enthalpy Charact.QExec.')
+HEADER = c14.HEADER.replace('Charact.QExec.', 'Charact.Enthalpy Charact.QExec Charact.QExecEnth.')
 RGAS = 8.31446261815324
 UNITS_P = {'bar': 1e5, 'Pa': 1.0, 'kPa': 1e3}
 WH_ADS = [('nitrogen', 70.0, 110.0), ('carbon dioxide', 225.0, 295.0), ('methane', 100.0, 180.0), ('argon', 85.0, 140.0)]
@@ -296,7 +296,7 @@ def classify(c, clause, o):
 
 
 def run(rep, tier, seed):
-    vlib.standard_proof_phase(rep, 'C19', extra_targets=['Charact/QExec.vo'])
+    vlib.standard_proof_phase(rep, 'C19', extra_targets=['Charact/QExecEnth.vo'])
     explore(rep, tier, seed)
     if rep.broken and not rep.violations and tier != 'thorough':
         explore(rep, 'thorough', seed + 1)
